@@ -581,10 +581,12 @@ class Engine:
             if isinstance(nxt, list):
                 # fork: each successor with its condition
                 for cond, tgt in nxt:
+                    n_pc = len(self.pc)
                     if cond is not None:
                         if not self.feasible(cond):
                             continue
-                        self.solver.push()
+                    self.solver.push()
+                    if cond is not None:
                         self.solver.add(cond)
                         self.pc.append(cond)
                     saved_locals = [dict(f.locals) for f in self.frames]
@@ -599,9 +601,8 @@ class Engine:
                             f.locals = sl
                             f.visits = sv
                         self.cells = saved_cells
-                        if cond is not None:
-                            self.pc.pop()
-                            self.solver.pop()
+                        del self.pc[n_pc:]
+                        self.solver.pop()
                 fr.visits[bidx] -= 1
                 return
             # NB: no decrement on straight-line continuation: the visit counts are per path
@@ -693,6 +694,7 @@ class Engine:
                 for cond, val in outs:
                     if not self.feasible(cond):
                         continue
+                    n_pc = len(self.pc)
                     self.solver.push()
                     self.solver.add(cond)
                     self.pc.append(cond)
@@ -711,7 +713,7 @@ class Engine:
                             f.visits = sv
                         self.cells = saved_cells
                         self.trail = saved_trail
-                        self.pc.pop()
+                        del self.pc[n_pc:]
                         self.solver.pop()
                 return None
             self.write_place(fr, t.place, res)
